@@ -1,8 +1,9 @@
 CONFIG = {
     "id": "C06",
-    "coq_targets": ["Props/C06.v", "Model/StatsCheck.v", "Model/ModifierCheck.v"],
+    "coq_targets": ["Gen/FormulasInfo.v", "Proofs/FormulasStatsProofs.v",
+                    "Props/C06.v", "Model/StatsCheck.v", "Model/ModifierCheck.v"],
     "prop_files": ["Props/C06.v"],
-    "gen": [],
+    "gen": ["FormulasInfo"],
     "components": [{
         "name": "stats", "modules": ["Model.Stats", "Model.StatsCheck"],
         "check": "check_case", "monitor": "monitor_case", "model_out": "model_out",
@@ -37,6 +38,18 @@ CONFIG = {
             "GetProperty / GetDebuffRES / HasWeakness and every kept snapshot. A case is non-trivial when distinct as "
             "an input term.",
     "trusted": [
+        "TRANSLATED from the Go source on every run and proved equal to the model at binary64 (Gen/FormulasInfo.v; "
+        "Proofs/FormulasStatsProofs.v; theorem C06_model_formulas_are_the_source): PropMap.Modify (which two "
+        "properties combine multiplicatively, the two update rules, and that only the addressed entry changes), "
+        "statCalc, the derived ATK and MaxHP a view reads",
+        "still HAND-WRITTEN (correspondence only): EvalModifiers / NewStats / AddAll (map ownership and iteration, "
+        "the subject of the property), DebuffRESMap.GetDebuffRES, the weakness and flag bookkeeping",
+        "translator (harness/cmd/go2coq formulas.go, formulas_specs.go): trusted are the Go front end "
+        "(go/packages, go/types, go/constant), the fixed whitelist and accessor tables (which Go field / method is "
+        "which model accessor), the statement translation listed at the top of formulas.go, and that lit N n d "
+        "(the correctly rounded quotient of two integers below 2^53) is the binary64 the Go compiler stores for "
+        "the literal n/d; the translator fails closed (unknown construct, added or missing assignment, changed "
+        "signature: go2coq exits 1 and the check reports a broken translator obligation)",
         "Go maps are modelled as total functions key -> float64 (an absent key reads 0); key presence (len, range) is not "
         "observed: the harness registers no OnPropertyChange listener, and AddAll skips zero values",
         "the property ids 90 / 91 (AllDamageReduce, Fatigue) and the ATK / HP group ids are constants of the model; the "
@@ -49,13 +62,16 @@ CONFIG = {
         "other than through the instance's methods)",
     ],
     "manifest": {
-        "level_text": "Kernel-checked theorems over an executable Gallina model in which every Go map is an object in an "
+        "level_text": "Translator tie (way 1) for the arithmetic the model uses: PropMap.Modify, statCalc, ATK / MaxHP are regenerated from info/map.go and info/stats.go on every run (go2coq FormulasInfo) and proved EQUAL to the model's definitions at binary64; "
+                      "Kernel-checked theorems over an executable Gallina model in which every Go map is an object in an "
                       "explicit store (so sharing is expressible): separation invariant over all reachable states, frame "
                       "and ownership theorems, evaluation formulas; tied to the Go code by exact correspondence of the "
                       "stats of every unit after every operation and of full re-reads.",
-        "level_note": "Coq kernel; hand-written model Model/Stats.v; correspondence harness over the real modifier "
+        "level_note": "go2coq FormulasInfo translator + kernel-checked equalities generated = model; "
+                      "Coq kernel; hand-written model Model/Stats.v; correspondence harness over the real modifier "
                       "manager and attribute service; property ids are model constants checked by the harness.",
-        "technique": "Coq proof (separation invariant by counting, frame, induction over op lists) + "
+        "technique": "source-to-Coq translation of the formulas with equality proofs + "
+                     "Coq proof (separation invariant by counting, frame, induction over op lists) + "
                      "model/implementation correspondence + ownership monitor on the implementation",
         "design_ref": "DESIGN.md section 7, C06",
     },
